@@ -33,9 +33,10 @@ type C18Case struct {
 	Chunks  []int      `json:"chunks"`
 	EOFWith bool       `json:"eof_with"`
 	// writer-half replay
-	Writer *C18WCase `json:"writer,omitempty"`
-	Other  string    `json:"other,omitempty"` // result digest recorded at another level
-	OtherL int       `json:"other_level,omitempty"`
+	Writer *C18WCase   `json:"writer,omitempty"`
+	Enc    *C18EncCase `json:"enc,omitempty"`
+	Other  string      `json:"other,omitempty"` // result digest recorded at another level
+	OtherL int         `json:"other_level,omitempty"`
 }
 
 func runnableLevels() []int {
@@ -75,6 +76,9 @@ func drawC18(t *rapid.T) C18Case {
 }
 
 func checkC18(c C18Case) (labels []string, nontrivial bool, err error) {
+	if c.Enc != nil {
+		return nil, false, checkC18Enc(*c.Enc)
+	}
 	if c.Writer != nil {
 		got, e := c18wResult(*c.Writer)
 		if e != nil {
@@ -251,8 +255,14 @@ func c18wResult(c C18WCase) (summary string, err error) {
 			return "", e
 		}
 		fmt.Fprintf(&sb, "decoded=%s", digestBytes(data))
-	} else {
-		fmt.Fprintf(&sb, "failed;after=%d", sink.AfterFail)
+	} else if sink.AfterFail != 0 {
+		return "", fmt.Errorf("the Writer called its destination %d more time(s) after the failure", sink.AfterFail)
+	}
+	if c.FailAt > 0 {
+		// Whether (and during which call) the k-th destination write happens depends on the
+		// compressed size, hence on match choices, which may legitimately differ between levels:
+		// runs with an injected fault are checked in-process only and contribute a constant.
+		return "fault-injected-run-checked-in-process", nil
 	}
 	return sb.String(), nil
 }
@@ -300,3 +310,85 @@ func init() {
 }
 
 var _ = io.EOF
+
+// ---------------------------------------------------------------- token-encoder stress
+
+// C18EncCase: data made of short copies from far back separated by a few literals, so that
+// most tokens are matches whose code + extra bits are 25..31 bits long - the range around the
+// vector token encoders' fast-path limits (which differ per acceleration level).
+type C18EncCase struct {
+	Seed    uint64 `json:"seed"`
+	Size    int    `json:"size"`
+	MaxLen  int    `json:"max_len"`
+	MinBack int    `json:"min_back"`
+	MaxLits int    `json:"max_lits"`
+	Level   int    `json:"level"`
+	Ctor    string `json:"ctor"`
+}
+
+func (c C18EncCase) data() []byte {
+	x := c.Seed*0x9E3779B97F4A7C15 + 99
+	next := func() uint64 {
+		x ^= x << 13
+		x ^= x >> 7
+		x ^= x << 17
+		return x
+	}
+	lead := c.MinBack + 4000
+	out := make([]byte, 0, c.Size)
+	for len(out) < lead {
+		v := next()
+		out = append(out, byte(v), byte(v>>8), byte(v>>16), byte(v>>24))
+	}
+	for len(out) < c.Size {
+		l := 3 + int(next()%uint64(c.MaxLen-2))
+		maxBack := len(out)
+		if maxBack > 32700 {
+			maxBack = 32700
+		}
+		back := c.MinBack + int(next()%uint64(maxBack-c.MinBack))
+		start := len(out) - back
+		for i := 0; i < l; i++ {
+			out = append(out, out[start+i])
+		}
+		for i, nl := 0, int(next()%uint64(c.MaxLits+1)); i < nl; i++ {
+			out = append(out, byte(next()>>24))
+		}
+	}
+	return out[:c.Size]
+}
+
+func checkC18Enc(c C18EncCase) error {
+	data := c.data()
+	z, err := runWriterOps(WSetting{Ctor: c.Ctor, Level: c.Level}, data, []gen.Op{{K: "W", N: len(data)}})
+	if err != nil {
+		return err
+	}
+	out, derr, consumed := stdInflate(z, nil)
+	if derr != nil || !bytes.Equal(out, data) || consumed != len(z) {
+		return fmt.Errorf("level-%d output of %d bytes of far-copy data does not round-trip at acceleration level %d: err=%v, %d bytes, first difference at %d", c.Level, len(data), archLevel, derr, len(out), firstDiff(out, data))
+	}
+	return nil
+}
+
+func TestC18Enc(t *testing.T) {
+	rapid.Check(t, func(t *rapid.T) {
+		c := C18EncCase{
+			Seed:    rapid.Uint64Range(0, 1<<40).Draw(t, "seed"),
+			Size:    rapid.IntRange(30000, 70000).Draw(t, "size"),
+			MaxLen:  rapid.SampledFrom([]int{8, 12, 43, 43, 100, 258}).Draw(t, "maxlen"),
+			MinBack: rapid.SampledFrom([]int{2100, 4100, 8200, 8200, 16400, 24600}).Draw(t, "minback"),
+			MaxLits: rapid.IntRange(0, 3).Draw(t, "maxlits"),
+			Level:   rapid.SampledFrom([]int{1, 2}).Draw(t, "level"),
+			Ctor:    rapid.SampledFrom([]string{"new", "new", "4k"}).Draw(t, "ctor"),
+		}
+		cc := C18Case{Enc: &c}
+		done := begin("C18", cc)
+		defer done()
+		if err := checkC18Enc(c); err != nil {
+			saveLast("C18", cc, err)
+			t.Fatalf("C18 violated (token-encoder stress, level %d): %v", archLevel, err)
+		}
+		stats.Record("C18", stats.Digest(c), true, []string{"token-encoder-stress"}, func() any { return cc })
+	})
+}
